@@ -657,6 +657,14 @@ TARGETS = [
                   prelude="let out : List (Nat × Nat) := []", prelude_scope=["out"], result="out",
                   self_fields={"b3hash": "b3hash_"}, methods={"as_bytes": "{recv}"},
                   serializes={"CheckKind::None": "[(0, 1)]", "CheckKind::Blake3": "[(1, 1)]"}, exprs={"Ok(33)": "out"})),
+    # ---- the tail of an entry store: store kind, then the layout (a parameter)
+    dict(name="storeKindParse", group="Open", file="src/reader/directory_pack/entry_store.rs", fn="parse", after=r"impl Parsable for StoreKind",
+         enums=[dict(rust="StoreKind", file="src/reader/directory_pack/entry_store.rs", lean="SrcStoreKind", types={}, ctor_prefixes=["StoreKind"])],
+         cfg=dict(params=[("bs", "Bytes")], ret="SrcStoreKind", outcome=True, reads={"read_u8": "takeLE bs 1"})),
+    dict(name="entryStoreBuilderParse", group="Open", file="src/reader/directory_pack/entry_store.rs", fn="parse", after=r"impl Parsable for EntryStoreBuilder",
+         enums=[dict(rust="StoreKind", file="src/reader/directory_pack/entry_store.rs", lean="SrcStoreKind", types={}, declare=False)],
+         cfg=dict(params=[("bs", "Bytes"), ("layoutParse", "Bytes → Outcome (L × Bytes)")], ret="L", outcome=True, implicit="{L : Type}",
+                  read_calls={"StoreKind::parse": "storeKindParse bs", "Layout::parse": "layoutParse bs"})),
 ]
 
 
